@@ -56,7 +56,20 @@ func (s *Service) importPipelineActions(ctx context.Context, newConfig config.Pi
 
 	failedActionIndex, err := s.executeActions(ctx, actions)
 	if err != nil {
-		s.undoImport(ctx, actions[:failedActionIndex+1])
+		// The failed action is rolled back too, it may have been executed
+		// partially (e.g. a connector was created but not all of its
+		// processors were attached). A delete action is different: it is a
+		// single step, so when it fails nothing was deleted, and its
+		// rollback - creating the entity again - would replace the instance
+		// that is still there with a blank one. For a connector that throws
+		// away the stored position: after an import that merely failed the
+		// source would start over from the beginning.
+		executed := actions[:failedActionIndex+1]
+		switch actions[failedActionIndex].(type) {
+		case deletePipelineAction, deleteConnectorAction, deleteProcessorAction:
+			executed = actions[:failedActionIndex]
+		}
+		s.undoImport(ctx, executed)
 		return nil, err
 	}
 
